@@ -1,5 +1,6 @@
 SPECIFICATION JSpec
 CONSTANTS
+    MaxBarriers = 0
     Inputs <- MCInputsThorough
     Configs <- MCConfigsThorough
 INVARIANTS
